@@ -468,6 +468,8 @@ def get_item(interp, o, k):
         interp.py_raise(TypeError, "'%s' object is not subscriptable" % o.cls.__name__)
     if isinstance(o, AnyOf):
         raise Unsupported("subscript of an unspecified value")
+    if isinstance(o, SymList):
+        return o.get(interp, k)
     if isinstance(o, LazySplit):
         if isinstance(k, int) and k == 0:
             return o.first()
@@ -582,6 +584,39 @@ def del_item(interp, o, k):
     raise Unsupported("del item of %s" % type(o).__name__)
 
 
+class SymList:
+    """list whose length is symbolic: indices below `length` are described by elem_fn(j) -> (is_none, value)
+    (the loop invariant that produced the list); items appended afterwards are kept concretely."""
+
+    def __init__(self, length, elem_fn):
+        self.length = length
+        self.elem_fn = elem_fn
+        self.appended = []
+
+    def total(self):
+        return self.length + len(self.appended)
+
+    def append(self, x):
+        self.appended.append(x)
+
+    def get(self, interp, j):
+        if isinstance(j, (bool, SBool)) or not is_intlike(j):
+            interp.py_raise(TypeError, "list indices must be integers")
+        if interp.test(j < 0):
+            raise Unsupported("negative index into a list of symbolic length")
+        if not interp.test(j < self.total()):
+            interp.py_raise(IndexError, "list index out of range")
+        if interp.test(j < self.length):
+            is_none, v = self.elem_fn(j)
+            if interp.test(is_none):
+                return None
+            return v
+        for i, x in enumerate(self.appended):
+            if interp.test(j == self.length + i):
+                return x
+        raise Unsupported("index into the appended part of a symbolic list")
+
+
 class AssocDict:
     """dict whose keys may be symbolic (association list; last binding wins).  Stands for a real
     dict in proofs about code that stores / looks up symbolic keys."""
@@ -685,6 +720,8 @@ def b_len(interp, v):
         return len(v.codes)
     if isinstance(v, SymSet):
         return v.count()
+    if isinstance(v, SymList):
+        return v.total()
     if isinstance(v, SRange):
         return ite(v.stop > v.start, v.stop - v.start, 0)
     if is_sym(v) or v is None or isinstance(v, (GenObj, Closure)):
